@@ -507,6 +507,67 @@ pub fn simultaneous_case(r: &mut Rng, n: usize) -> String {
     format!("KBig [{}]", tabs.join("; "))
 }
 
+/// C01 in a network beyond the reach of the whole-lookup model (48..96 storing nodes, buckets overflow, replies are
+/// truncated to the 20 closest): puts of all four kinds from random nodes, gets from random other nodes, then a
+/// third of the nodes crash and every key is read again by a live node (counted when a live holder other than the
+/// reader remains). Success rates only.
+pub fn big_store_case(r: &mut Rng, n: usize, n_keys: usize) -> String {
+    let mut net = Net::new(r);
+    net.spawn(true, &[], &[]);
+    for j in 1..n {
+        let b = if r.chance(1, 2) { 0 } else { r.below(j as u64) as usize };
+        net.spawn(true, &[b], &[]);
+        net.quiesce();
+    }
+    let mut seqs = std::collections::HashMap::new();
+    let (mut puts, mut put_ok, mut gets, mut found, mut gets_c, mut found_c) = (0u64, 0u64, 0u64, 0u64, 0u64, 0u64);
+    let mut keys: Vec<usize> = Vec::new();
+    for k in 0..n_keys {
+        let key = 100 + k;
+        let w = r.below(n as u64) as usize;
+        let (flag, _) = run_event(&mut net, &Ev::Put(w, key), &mut seqs);
+        puts += 1;
+        if flag == Some(true) {
+            put_ok += 1;
+            keys.push(key);
+        }
+    }
+    for key in keys.iter() {
+        for _ in 0..3 {
+            let rd = r.below(n as u64) as usize;
+            let others: Vec<usize> = holders(&net, *key).into_iter().filter(|h| *h != rd).collect();
+            if others.is_empty() {
+                continue;
+            }
+            let (flag, _) = run_event(&mut net, &Ev::Get(rd, *key), &mut seqs);
+            gets += 1;
+            if flag == Some(true) {
+                found += 1;
+            }
+        }
+    }
+    // a third of the nodes crash
+    let mut order: Vec<usize> = (0..n).collect();
+    r.shuffle(&mut order);
+    for j in order.iter().take(n / 3) {
+        net.nodes[*j].up = false;
+    }
+    for key in keys.iter() {
+        let live: Vec<usize> = (0..n).filter(|j| net.nodes[*j].up).collect();
+        let rd = *r.pick(&live);
+        let others: Vec<usize> = holders(&net, *key).into_iter().filter(|h| *h != rd).collect();
+        if others.is_empty() {
+            continue;
+        }
+        let (flag, _) = run_event(&mut net, &Ev::Get(rd, *key), &mut seqs);
+        gets_c += 1;
+        if flag == Some(true) {
+            found_c += 1;
+        }
+    }
+    format!("KBigStore {} {} {} {} {} {} {}", n, puts, put_ok, gets, found, gets_c, found_c)
+}
+
 pub fn generate(seed: u64, scale: usize, which: &str) -> Cases {
     let mut r = Rng::new(seed ^ 0xC13);
     let mut o = Cases::new();
@@ -560,6 +621,12 @@ pub fn generate(seed: u64, scale: usize, which: &str) -> Cases {
             let nc = [0usize, 1, 0, 2, 3, 0, 4, 0][i % 8];
             let plan = store_plan(&mut rr, ns, nc);
             o.push("put-get-crash", run_case(&mut rr, plan));
+        }
+        // larger networks: success rates
+        for i in 0..scale {
+            let mut rr = r.fork();
+            let n = [48usize, 64, 96][i % 3];
+            o.push("big-network-success-rate", big_store_case(&mut rr, n, 8));
         }
     }
     o
